@@ -37,62 +37,70 @@ open FinX
 theorem C01.finalize_shape_pinned : Gen.finalizeShape = Pinned.finalizeShape := rfl
 
 /-- An accepted transaction balances to within display precision: in every
-    commodity the exact residual of the RESULT (costs applied, inferred postings
-    included) prints as zero. -/
+    commodity — an annotated (lot) commodity is a commodity of its own — the exact
+    residual of the RESULT (costs applied, lot-priced costs at their basis,
+    inferred postings included) prints as zero at the display precision of the
+    commodity's base. -/
 theorem C01.finalize_ok_residual_zero (env : PrecEnv) (bucket : Option String)
-    (enum : Balance → Balance) (henum : ∀ b, (enum b).Perm b) (x : Xact) (x' : FXact)
+    (enum : Balance → Balance) (henum : ∀ b, (enum b).Perm b) (x : LXact) (x' : FXact)
     (h : finalize env bucket enum x = .ok x') :
-    ∀ c, displaysZero env c (residual x'.posts c) = true :=
-  finalizeF_ok env bucket enum henum _ (ofPosting_cc env x.posts) x' h
+    ∀ c, displaysZero (liftEnv env) c (residual x'.posts c) = true :=
+  finalizeF_ok (liftEnv env) bucket enum henum _ _ (ofPosting_cc _ x.posts) x' h
 
-/-- Exact fragment: no posting carries a cost and every amount is a commoditized
-    decimal written with at most its commodity's display precision (`FinX.Exact`;
-    the loader guarantees the precision part, `C01.step_precision_covers`).  Then an
-    accepted transaction sums to EXACTLY zero in every commodity.  The implicit
-    two-commodity exchange is covered (`y + |y/x|·x` is 0 or 2y, and 2y is a
-    non-zero multiple of the display unit, which never prints as zero). -/
+/-- Exact fragment: no posting carries a cost or a lot annotation and every
+    amount is a commoditized decimal written with at most its commodity's display
+    precision (`FinX.Exact`; the loader guarantees the precision part,
+    `C01.step_precision_covers`).  Then an accepted transaction sums to EXACTLY
+    zero in every commodity.  The implicit two-commodity exchange is covered
+    (`y + |y/x|·x` is 0 or 2y, and 2y is a non-zero multiple of the display unit,
+    which never prints as zero). -/
 theorem C01.finalize_exact_of_migrated (env : PrecEnv) (bucket : Option String)
-    (enum : Balance → Balance) (henum : ∀ b, (enum b).Perm b) (x : Xact) (x' : FXact)
-    (hcost : ∀ p ∈ x.posts, p.cost = none)
-    (hex : ∀ p ∈ x.posts, ∀ a, p.amount = some a → Exact env a)
+    (enum : Balance → Balance) (henum : ∀ b, (enum b).Perm b) (x : LXact) (x' : FXact)
+    (hcost : ∀ p ∈ x.posts, p.post.cost = none) (hlot : ∀ p ∈ x.posts, p.lot = none)
+    (hex : ∀ p ∈ x.posts, ∀ a, p.post.amount = some a → Exact (liftEnv env) a)
     (h : finalize env bucket enum x = .ok x') :
     ∀ c, residual x'.posts c = 0 :=
-  finalizeF_exact env bucket enum henum _ (ofPosting_cost_none env x.posts hcost)
-    (ofPosting_cc env x.posts) (ofPosting_amount env x.posts _ hex) x' h
+  finalizeF_exact (liftEnv env) bucket enum henum _ _ (ofPosting_cost_none _ x.posts hcost)
+    (ofPosting_cc _ x.posts) (ofPosting_lot_none _ x.posts hlot)
+    (ofPosting_amount _ x.posts _ hlot hex) x' h
 
 /-- once a transaction has been read, the display precision of every commodity
     covers each of its posting amounts (amount.cc 1190-1195) -/
-theorem C01.step_precision_covers (env : PrecEnv) (x : Xact) (p : Posting) (a : Amount)
-    (hp : p ∈ x.posts) (ha : p.amount = some a) : a.prec ≤ observe env x a.comm :=
+theorem C01.step_precision_covers (env : PrecEnv) (x : LXact) (p : LPosting) (a : Amount)
+    (hp : p ∈ x.posts) (ha : p.post.amount = some a) : a.prec ≤ observe env x a.comm :=
   observe_covers env x p a hp ha
 
 /-- Rejection.  Every must-balance posting has an amount, no bucket posting is
     added, every written cost is in another commodity than its amount, the
     implicit two-commodity exchange does not apply (`FinX.implicitExchange`: exactly
-    two residual commodities, both displaying non-zero, and no written cost), and
-    in some commodity the exact residual does not print as zero (in particular:
-    it is off by a whole unit) ⇒ "Transaction does not balance". -/
+    two residual commodities, both displaying non-zero, and no written cost), no
+    posting has both a lot price and a cost (for those see `C01.lot_cost_consistent`:
+    the residual is then taken at the basis cost), and in some commodity the exact
+    residual does not print as zero (in particular: it is off by a whole unit)
+    ⇒ "Transaction does not balance". -/
 theorem C01.finalize_unbalanced_error (env : PrecEnv) (bucket : Option String)
-    (enum : Balance → Balance) (henum : ∀ b, (enum b).Perm b) (x : Xact)
-    (hnonull : ∀ p ∈ x.posts.map (FPost.ofPosting env), p.mustBalance = true → (costOrAmt p).isSome = true)
+    (enum : Balance → Balance) (henum : ∀ b, (enum b).Perm b) (x : LXact)
+    (hnonull : ∀ p ∈ x.posts.map (FPost.ofPosting (liftEnv env)), p.mustBalance = true → (costOrAmt p).isSome = true)
     (hb : bucket = none ∨ x.posts.length ≠ 1)
-    (hcosts : costsOk (x.posts.map (FPost.ofPosting env)) = true)
-    (himp : implicitExchange env (x.posts.map (FPost.ofPosting env)) = false)
-    (c : Comm) (hres : displaysZero env c (residual (x.posts.map (FPost.ofPosting env)) c) = false) :
+    (hcosts : costsOk (x.posts.map (FPost.ofPosting (liftEnv env))) = true)
+    (himp : implicitExchange (liftEnv env) (x.posts.map (FPost.ofPosting (liftEnv env))) = false)
+    (hlot : ∀ p ∈ x.posts.map (FPost.ofPosting (liftEnv env)), p.lotPrice = none ∨ p.cost = none)
+    (c : Comm)
+    (hres : displaysZero (liftEnv env) c (residual (x.posts.map (FPost.ofPosting (liftEnv env))) c) = false) :
     finalize env bucket enum x = .error .unbalanced :=
-  finalizeF_unbalanced env bucket enum henum _ hnonull (by simpa using hb) hcosts himp c hres
+  finalizeF_unbalanced (liftEnv env) bucket enum henum _ _ hnonull (by simpa using hb) hcosts himp hlot c hres
 
 /-- a written cost rules the implicit exchange out -/
-theorem C01.no_implicit_exchange_with_cost (env : PrecEnv) (x : Xact)
-    (h : ∃ p ∈ x.posts, p.amount.isSome = true ∧ p.cost.isSome = true) :
+theorem C01.no_implicit_exchange_with_cost (env : PrecEnv) (x : LXact)
+    (h : ∃ p ∈ x.posts, p.post.amount.isSome = true ∧ p.post.cost.isSome = true) :
     implicitExchange env (x.posts.map (FPost.ofPosting env)) = false := by
   apply implicitExchange_false_of_cost
   obtain ⟨p, hp, ha, hc⟩ := h
   refine ⟨FPost.ofPosting env p, List.mem_map.2 ⟨p, hp, rfl⟩, ?_, rfl⟩
-  cases hpa : p.amount with
+  cases hpa : p.post.amount with
   | none => rw [hpa] at ha; cases ha
   | some a =>
-    cases hpc : p.cost with
+    cases hpc : p.post.cost with
     | none => rw [hpc] at hc; cases hc
     | some k => simp [FPost.ofPosting, hpa, hpc]
 
@@ -110,15 +118,57 @@ theorem C01.whole_unit_not_zero (env : PrecEnv) (c : Comm) (hc : c ≠ "") (n : 
   · exact hn h1
   · exact absurd h1 (Int.pow_ne_zero (by decide))
 
+/-- Lots (xact.cc 296-352).  A posting whose amount carries a lot price in the
+    commodity of its cost leaves the cost loop with the BASIS cost
+    `lot price × quantity` (exactly), its amount and annotation untouched; the
+    balance receives exactly `basis − given cost` when the posting must balance
+    (so a sale above or below the lot price has to be completed by a gain/loss
+    posting, or is absorbed by an elided one).  [In this source the separate
+    gain/loss posting is `#if 0`; the cost is adjusted instead.] -/
+theorem C01.lot_cost_consistent (env : PrecEnv) (date : String) (p p' : FPost) (gl : Option Amount)
+    (price amt cost : Amount)
+    (h : lotStep env date p = .ok (p', gl)) (hl : p.lotPrice = some price) (ha : p.amount = some amt)
+    (hc : p.cost = some cost) (hcomm : (Amount.mul env price amt).comm = cost.comm) :
+    ∃ c', p'.cost = some c' ∧ c'.q = price.q * amt.q ∧ c'.comm = cost.comm ∧ p'.amount = some amt ∧
+      (∀ g, gl = some g → g.q = price.q * amt.q - cost.q ∧ g.comm = cost.comm) ∧
+      (gl = none → p.mustBalance = false ∨ price.q * amt.q = cost.q) :=
+  lotStep_cost_consistent env date p p' gl price amt cost h hl ha hc hcomm
+
+/-- … and a lot-priced posting WITHOUT `@` gets no cost at all: it stays an amount
+    of its annotated commodity (and is balanced in that commodity). -/
+theorem C01.lot_without_cost_untouched (env : PrecEnv) (date : String) (p : FPost) (h : p.cost = none) :
+    lotStep env date p = .ok (p, none) :=
+  lotStep_nocost env date p h
+
+/-- whatever the cost loop does to a posting, its contribution to the residual
+    moves by exactly what is handed to the balance; account, kind and the
+    presence of an amount are unchanged -/
+theorem C01.lot_step_residual (env : PrecEnv) (date : String) (p p' : FPost) (gl : Option Amount)
+    (h : lotStep env date p = .ok (p', gl)) :
+    p'.account = p.account ∧ p'.kind = p.kind ∧ p'.amount.isSome = p.amount.isSome ∧
+    ∀ c, p'.bal c = p.bal c + glDen gl c := by
+  obtain ⟨_, h2, h3, h4, _, h6, _⟩ := lotStep_spec env date p p' gl h
+  exact ⟨h2, h3, h4, h6⟩
+
+/-- Stripping lot annotations (any `s : Comm → Comm`, in particular C05's
+    `stripComm k` over the same `BASE{price}[date](tag)` encoding) moves every
+    quantity from its lot commodity `x` to `s x` and does nothing else: the
+    residual of the stripped transaction at `c` is the residual of the original
+    one summed over all lots that strip to `c` — the statement `C05.strip_den`
+    makes about values, here about a transaction's balancing postings. -/
+theorem C01.strip_residual (s : Comm → Comm) (ps : List FPost) (c : Comm) :
+    residual (ps.map (stripPost s)) c = residualOn (fun x => decide (s x = c)) ps := by
+  rw [residual_eq_residualOn, residualOn_strip]
+
 /-- Journal step: a transaction whose finalize fails (other than the silent
     all-null case) is absent from the state and the error count grows by one. -/
-theorem C01.step_rejects (enum : Balance → Balance) (st : JState) (x : Xact) (e : FinErr)
+theorem C01.step_rejects (enum : Balance → Balance) (st : JState) (x : LXact) (e : FinErr)
     (h : finalize (observe st.env x) st.bucket enum x = .error e) (he : e ≠ .ignored) :
     (step enum st (.xact x)).xacts = st.xacts ∧ (step enum st (.xact x)).errors = st.errors + 1 := by
   cases e <;> first | exact absurd rfl he | simp [step, h]
 
 /-- and an accepted one is appended, the error count unchanged -/
-theorem C01.step_accepts (enum : Balance → Balance) (st : JState) (x : Xact) (fx : FXact)
+theorem C01.step_accepts (enum : Balance → Balance) (st : JState) (x : LXact) (fx : FXact)
     (h : finalize (observe st.env x) st.bucket enum x = .ok fx) :
     (step enum st (.xact x)).xacts = st.xacts ++ [fx] ∧ (step enum st (.xact x)).errors = st.errors := by
   simp [step, h]
@@ -135,16 +185,17 @@ theorem C01.journal_total_at_cost (enum : Balance → Balance) (henum : ∀ b, (
   refine ⟨residual_flatMap _ c, ?_⟩
   apply foldl_step_forall enum (fun fx => ∃ env, ∀ c, displaysZero env c (residual fx.posts c) = true) items
   · intro env bucket x fx _ hf
-    exact ⟨observe env x, C01.finalize_ok_residual_zero _ bucket enum henum x fx hf⟩
+    exact ⟨liftEnv (observe env x), C01.finalize_ok_residual_zero _ bucket enum henum x fx hf⟩
   · intro fx hfx; cases hfx
 
-/-- On the exact fragment (no costs; every posting amount a commoditized decimal
-    as the reader produces it) the grand total of an accepted journal is EXACTLY
-    zero in every commodity. -/
+/-- On the exact fragment (no costs, no lots; every posting amount a
+    commoditized decimal as the reader produces it) the grand total of an
+    accepted journal is EXACTLY zero in every commodity. -/
 theorem C01.journal_total_exact (enum : Balance → Balance) (henum : ∀ b, (enum b).Perm b)
     (items : List JItem)
-    (hcost : ∀ x, JItem.xact x ∈ items → ∀ p ∈ x.posts, p.cost = none)
-    (hdec : ∀ x, JItem.xact x ∈ items → ∀ p ∈ x.posts, ∀ a, p.amount = some a → Decimal a)
+    (hcost : ∀ x, JItem.xact x ∈ items → ∀ p ∈ x.posts, p.post.cost = none ∧ p.lot = none)
+    (hdec : ∀ x, JItem.xact x ∈ items → ∀ p ∈ x.posts, ∀ a, p.post.amount = some a →
+      Decimal a ∧ hasAnn a.comm = false)
     (c : Comm) : grandTotal (load enum items) c = 0 := by
   rw [(C01.journal_total_at_cost enum henum items c).1]
   apply sumR_zero
@@ -152,8 +203,12 @@ theorem C01.journal_total_exact (enum : Balance → Balance) (henum : ∀ b, (en
   obtain ⟨fx, hfx, rfl⟩ := List.mem_map.1 hq
   have := foldl_step_forall enum (fun fx => ∀ c, residual fx.posts c = 0) items
     (fun env bucket x fx hx hf =>
-      C01.finalize_exact_of_migrated (observe env x) bucket enum henum x fx (hcost x hx)
-        (fun p hp a ha => exact_of_decimal _ a (hdec x hx p hp a ha) (observe_covers env x p a hp ha)) hf)
+      C01.finalize_exact_of_migrated (observe env x) bucket enum henum x fx
+        (fun p hp => (hcost x hx p hp).1) (fun p hp => (hcost x hx p hp).2)
+        (fun p hp a ha => exact_of_decimal _ a (hdec x hx p hp a ha).1 (by
+          show a.prec ≤ observe env x (lotBase a.comm)
+          rw [lotBase_of_plain a.comm (hdec x hx p hp a ha).2]
+          exact observe_covers env x p a hp ha)) hf)
     JState.init (fun fx h => by cases h)
   exact this fx hfx c
 
@@ -164,8 +219,10 @@ private def usd (n : Int) (d : Nat) : Amount := { q := mkRat n (10 ^ d), prec :=
 private def xx (n : Int) : Amount := { q := n, prec := 0, keep := false, comm := "XX" }
 private def mkPost (acct : String) (k : PostKind) (a : Option Amount) (c : Option Cost) : Posting :=
   { account := acct, kind := k, state := 0, amount := a, cost := c, assert := none, note := "", line := 0 }
-private def mkX (ps : List Posting) : Xact :=
-  { date := 18000, aux := none, state := 0, code := "", payee := "p", note := "", posts := ps, line := 1, endLine := 3 }
+private def mkX (ps : List Posting) : LXact := { date := 18000, posts := ps.map (fun p => ⟨p, none⟩) }
+private def aapl (n : Int) : Amount := { q := n, prec := 0, keep := false, comm := "AAPL" }
+private def lot5 : LotSpec := { price := some (usd 500 2), total := false, fixated := false, date := none, tag := none }
+private def mkL (ps : List (Posting × Option LotSpec)) : LXact := { date := 18262, posts := ps.map (fun p => ⟨p.1, p.2⟩) }
 private def env2 : PrecEnv := fun c => if c = "EUR" ∨ c = "$" then 2 else 0
 
 /-- a balanced transaction with a [bracketed] posting is accepted -/
@@ -194,6 +251,24 @@ example : (finalize env2 none id (mkX [mkPost "A" .real (some (eur 1000 2)) none
     mkPost "B" .real (some (usd (-1234) 2)) none])).toBool = true := by decide +kernel
 
 /-- hypotheses of `finalize_exact_of_migrated` are satisfiable -/
-example : Exact env2 (eur 1000 2) := ⟨by decide, rfl, by decide, 1000, rfl⟩
+example : Exact (liftEnv env2) (eur 1000 2) := ⟨by decide, rfl, by decide +kernel, 1000, by decide +kernel⟩
+
+/-- selling 10 AAPL {$5.00} @ $7.00 for $70.00 does not balance (the $20 gain is missing) … -/
+example : finalize env2 none id (mkL [(mkPost "A" .real (some (aapl (-10))) (some ⟨usd 700 2, true⟩), some lot5),
+    (mkPost "B" .real (some (usd 7000 2)) none, none)]) = .error .unbalanced := by decide +kernel
+
+/-- … with the gain posted it does, and the lot posting is carried at its basis cost $-50 -/
+example : (finalize env2 none id (mkL [(mkPost "A" .real (some (aapl (-10))) (some ⟨usd 700 2, true⟩), some lot5),
+    (mkPost "B" .real (some (usd 7000 2)) none, none), (mkPost "G" .real (some (usd (-2000) 2)) none, none)])).toOption.map
+      (fun fx => fx.posts.map (fun p => (p.account, (p.amount.map (·.comm)).getD "", ((costOrAmt p).map (·.q)).getD 0)))
+    = some [("A", "AAPL{5/1 $}[]()", (-50 : Rat)), ("B", "$", (70 : Rat)), ("G", "$", (-20 : Rat))] := by
+  decide +kernel
+
+/-- a purchase `10 AAPL @ $5.00` is annotated with the computed price and the transaction date -/
+example : (finalize env2 none id (mkL [(mkPost "A" .real (some (aapl 10)) (some ⟨usd 500 2, true⟩), none),
+    (mkPost "B" .real none none, none)])).toOption.map
+      (fun fx => fx.posts.map (fun p => (p.account, p.amount.map (fun a => (a.comm, a.q)))))
+    = some [("A", some ("AAPL{5/1 $}[2020/01/01]()", 10)), ("B", some ("$", -50))] := by
+  decide +kernel
 
 end Ledger
